@@ -231,4 +231,55 @@ lemma cut_ne_nil (wk : Window) (acc : List (List Bool)) (T i : Nat) (hT : 0 < T)
     simp at this
     omega
 
+/-! ### the component loop on recorded values vs on the target function -/
+
+/-- The recorded values `f` agree with `g` at every point the `g`-run of the component loop queries:
+    at component `j` the loop evaluates `x_star` with coordinate `j` replaced. -/
+def AgreeOn (k : Kernel) (f g : Nat → Vec → XVal) (xall : Vec) (ells : List XVal) : List Nat → CWLoop → Prop
+  | [], _ => True
+  | j :: js, L =>
+    f j (L.xstar.set j (xall.getD j 0)) = g j (L.xstar.set j (xall.getD j 0)) ∧
+      AgreeOn k f g xall ells js (cwBody k g xall ells L j)
+
+lemma cwBody_congr (k : Kernel) (f g : Nat → Vec → XVal) (xall : Vec) (ells : List XVal) (L : CWLoop) (j : Nat)
+    (h : f j (L.xstar.set j (xall.getD j 0)) = g j (L.xstar.set j (xall.getD j 0))) :
+    cwBody k f xall ells L j = cwBody k g xall ells L j := by
+  unfold cwBody
+  simp only [h]
+
+lemma cwFold_congr (k : Kernel) (f g : Nat → Vec → XVal) (xall : Vec) (ells : List XVal) (js : List Nat) (L : CWLoop)
+    (h : AgreeOn k f g xall ells js L) :
+    js.foldl (cwBody k f xall ells) L = js.foldl (cwBody k g xall ells) L := by
+  induction js generalizing L with
+  | nil => rfl
+  | cons j js ih =>
+    obtain ⟨h1, h2⟩ := h
+    simp only [List.foldl_cons]
+    rw [cwBody_congr k f g xall ells L j h1]
+    exact ih _ h2
+
+/-- the loop state `cwStep` starts from -/
+def cwLoop0 (st : St) : CWLoop := { xt := st.x, xstar := st.x, evalT := st.logd, acc := [], queries := [] }
+
+lemma cwStep_congr (k : Kernel) (f g : Nat → Vec → XVal) (st : St) (z : Vec) (ells : List XVal) (b : Bool)
+    (h : AgreeOn k f g ((cwPropose st z).map (coerce b)) ells (List.range st.x.length) (cwLoop0 st)) :
+    cwStep k f st z ells b = cwStep k g st z ells b := by
+  unfold cwStep
+  simp only
+  have := cwFold_congr k f g _ ells _ _ h
+  unfold cwLoop0 at this
+  rw [this]
+
+/-! ### histories with re-initialisation -/
+
+lemma runPhase_invariant {ι : Type} (tn : Tuner) (wk : Window) (dim : Nat) (step : St → ι → St × List Bool)
+    (P : St → Prop) (hstep : ∀ st inp, P st → P (step st inp).1)
+    (hscale : ∀ st v, P st → P { st with scale := v }) (fresh s : Smp) (ph : Phase ι) (h : P s.st) :
+    P (runPhase tn wk dim step fresh s ph).st := by
+  cases ph with
+  | sample inputs => exact smpSample_invariant step P hstep s inputs h
+  | warmup T zi ns inputs => exact smpWarmupFrom_invariant tn wk dim T step zi ns P hstep hscale 0 s inputs h
+  | rescale v => exact hscale _ _ h
+  | reload => exact h
+
 end CuqiVerif.C02
